@@ -85,7 +85,7 @@ def run(ctx):
                 camp.sh.maybe_flush()
             ctx.sample({"leaf": leaf, "values": len(dom)})
         # 2. text and composite constructs of the core fragment, random values and inputs
-        nprog = 400 if quick else 6000
+        nprog = 400 if quick else 4000
         from .. import universes as U
         progs = [(p, rng.choice([{"k": 2}, {"k": 1}, {"k": 3}])) for p in U.systematic(rng, 0.3 if quick else 1.0)]
         for i in range(nprog):
